@@ -11,6 +11,8 @@ import json
 import os
 import random
 import signal
+import subprocess
+import sys
 import time
 import types
 from fractions import Fraction
@@ -549,6 +551,45 @@ def _zero_metric(graph):
     return 0.0
 
 
+_FRESH_DEFAULTS = {}
+
+
+def fresh_defaults():
+    """documented defaults of the two parameter classes, as repr strings, from a FRESH interpreter (the process of
+    the check may have been polluted by facades built earlier)"""
+    if not _FRESH_DEFAULTS:
+        code = ('import json, logging; logging.disable(logging.CRITICAL)\n'
+                'from golem.core.optimisers.genetic.gp_params import GPAlgorithmParameters\n'
+                'from golem.core.optimisers.optimization_parameters import GraphRequirements\n'
+                'print("C15DEFAULTS" + json.dumps({"gp": {k: repr(v) for k, v in vars(GPAlgorithmParameters()).items()},'
+                ' "req": {k: repr(v) for k, v in vars(GraphRequirements()).items()}}))')
+        out = subprocess.run([sys.executable, '-c', code], stdout=subprocess.PIPE, stderr=subprocess.DEVNULL, text=True,
+                             timeout=300).stdout
+        line = next(ln for ln in out.splitlines() if ln.startswith('C15DEFAULTS'))
+        _FRESH_DEFAULTS.update(json.loads(line[len('C15DEFAULTS'):]))
+    return _FRESH_DEFAULTS
+
+
+def field_observations(gp, req, kwargs):
+    """every field of the gp / requirements objects except timeout and n_jobs: (name, owner, given by this facade?,
+    FGiven / FDefault / FOther)"""
+    given = dict(kwargs)
+    out = []
+    for owner, obj, defaults in (('DGp', gp, fresh_defaults()['gp']), ('DReq', req, fresh_defaults()['req'])):
+        for k, drepr in defaults.items():
+            if k in ('timeout', 'n_jobs'):
+                continue
+            val = getattr(obj, k, '<missing>')
+            if k in given and same(val, given[k]):
+                ob = 'FGiven'
+            elif repr(val) == drepr:
+                ob = 'FDefault'
+            else:
+                ob = 'FOther'
+            out.append((k, owner, k in given, ob, repr(val)[:80]))
+    return out
+
+
 def observe_api(timeout, n_jobs, kwargs):
     """kwargs: list of (key, value); opaque objects are (object, id) pairs"""
     from golem.api.main import GOLEM
@@ -572,6 +613,7 @@ def observe_api(timeout, n_jobs, kwargs):
     rec['req_n_jobs'] = getattr(req, 'n_jobs', None)
     rec['n_jobs_elsewhere'] = bool(hasattr(gp, 'n_jobs') or hasattr(gen, 'n_jobs'))
     rec['dynamic'] = type(req).__name__ == 'DynamicGraphRequirements'
+    rec['fields'] = field_observations(gp, req, kwargs)
     rec['same_objects'] = (req is g.graph_requirements and gen is g.graph_generation_parameters and gp is g.gp_algorithm_parameters)
     return rec
 
@@ -581,15 +623,17 @@ def api_case(cpu, timeout, n_jobs, kwargs, rec):
     head = '{| a_cpu := %s; a_timeout := %s; a_njobs := %s; a_kwargs := %s; ' % (c_Z(cpu), aval(timeout), c_Z(n_jobs), kw)
     if rec['raised']:
         return head + ('a_raised := Some %s; a_where := []; a_req_timeout := None; a_req_njobs := None; '
-                       'a_njobs_elsewhere := false; a_dynamic := false |}') % EXN.get(rec['raised'], 'AttributeError')
+                       'a_njobs_elsewhere := false; a_fields := []; a_dynamic := false |}') % EXN.get(rec['raised'], 'AttributeError')
     tri = lambda t: '(%s, %s, %s)' % tuple(c_bool(x) for x in t)
     where = c_list(['(%s, %s)' % (c_str(k), tri(w)) for k, w in rec['where']], '(string * (bool * bool * bool))')
     rt = rec['req_timeout']
     rn = rec['req_n_jobs']
+    fields = c_list(['(%s, %s, %s, %s)' % (c_str(k), owner, c_bool(g), ob) for k, owner, g, ob, _ in rec['fields']],
+                    '(string * dest * bool * fobs)')
     return head + ('a_raised := None; a_where := %s; a_req_timeout := %s; a_req_njobs := %s; '
-                   'a_njobs_elsewhere := %s; a_dynamic := %s |}') % (
+                   'a_njobs_elsewhere := %s; a_fields := %s; a_dynamic := %s |}') % (
         where, 'None' if rt == 'missing' else '(Some %s)' % aval(rt), 'None' if rn is None else '(Some %s)' % aval(rn),
-        c_bool(rec['n_jobs_elsewhere']), c_bool(rec['dynamic']))
+        c_bool(rec['n_jobs_elsewhere']), fields, c_bool(rec['dynamic']))
 
 
 def unit_api(ctx):
@@ -619,17 +663,29 @@ def unit_api(ctx):
     plan += [(t, j, [('num_of_generations', 3)]) for t, j in itertools.product(timeouts, [2, -1])]
     plan += [(1, j, [(k, SENTINELS[k])]) for j, k in zip(itertools.cycle(jobs), keys)]
     plan += [(1, 0, []), (1, -cpu - 1, [])]                  # worker counts the code documents as improper
+    # sequences of facades in ONE process with partly disjoint keyword sets: a limit set by an earlier facade and
+    # left unset by a later one (and the reverse) - a facade must be a function of its own arguments only
+    tight = [('num_of_generations', 1), ('early_stopping_iterations', 1), ('pop_size', 4), ('max_pop_size', 4), ('max_depth', 3)]
+    plain_kw = [('num_of_generations', 4), ('pop_size', 5)]
+    other = [('early_stopping_timeout', 1.5), ('start_depth', 2), ('keep_n_best', 3), ('offspring_rate', 0.25)]
+    plan += [(2, 1, tight), (2, 1, plain_kw), (2, 1, other), (2, 1, []), (2, 1, plain_kw), (2, 1, tight), (2, 1, [])]
     while len(plan) < n:
         ks = rng.sample(keys, rng.randrange(0, 6))
         kwargs = [(k, SENTINELS[k]) for k in ks]
         if rng.random() < 0.3:
             kwargs.append(('adapter', (IdentityAdapter(), len(plan))))
         plan.append((rng.choice(timeouts), rng.choice(jobs), kwargs))
+    earlier = []
     for timeout, n_jobs, kwargs in plan:
+        jkw = {k: v for k, v in kwargs if not isinstance(v, tuple)}
         kwargs = kwargs + common_kwargs()
         rec = observe_api(timeout, n_jobs, kwargs)
         cases.append(api_case(cpu, timeout, n_jobs, kwargs, rec))
-        jrec = dict(rec, req_timeout=str(rec.get('req_timeout')), cpu_count=cpu)
+        jrec = dict(rec, req_timeout=str(rec.get('req_timeout')), cpu_count=cpu,
+                    sequence=earlier[-2:] + [{'timeout': timeout if not isinstance(timeout, datetime.timedelta) else 0.5,
+                                              'n_jobs': n_jobs, 'kwargs': jkw}],
+                    fields=[f for f in rec.get('fields', []) if f[3] != ('FGiven' if f[2] else 'FDefault')])
+        earlier.append(jrec['sequence'][-1])
         meta.append(jrec)
         ctx.count('api', key=(str(timeout), n_jobs, tuple(k for k, _ in kwargs)), nontrivial=len(kwargs) >= 4,
                   timeout=type(timeout).__name__, raised=str(rec['raised']), keys=min(len(kwargs), 9),
@@ -642,21 +698,49 @@ def unit_api(ctx):
     bad = dict(rec, req_n_jobs=1)
     cases.append(api_case(cpu, 2, 2, ckw, bad))
     ctx.canaries += 1
-    res = ctx.coq_cases('api', REQ, 'acheck', cases, 5)
+    res = ctx.coq_cases('api', REQ, 'acheck', cases, 6)
     if not res[-1][0] and not res[-1][4]:
         ctx.canaries_caught += 1
-    for rec, (ag, acc, keys_ok, tmo_ok, nj_ok) in zip(meta, res[:-1]):
-        if not ag:
-            ctx.disagree('api', rec, 'model of the ApiParams distribution differs from the facade')
-        if not acc:
-            ctx.violate('api', rec, 'GOLEM(...) raised %s on documented arguments' % rec['raised'])
-        if not keys_ok:
-            ctx.violate('api', rec, 'a limit given to the facade is not found unchanged in exactly one parameter object')
-        if not tmo_ok:
-            ctx.violate('api', rec, 'the timeout given to the facade does not arrive as the same duration')
-        if not nj_ok:
-            ctx.violate('api', rec, 'the worker count given to the facade does not arrive in the requirements handed to the optimiser')
+    for rec, (ag, acc, keys_ok, tmo_ok, nj_ok, unset_ok) in zip(meta, res[:-1]):
+        judge_api(ctx, 'api', rec, (ag, acc, keys_ok, tmo_ok, nj_ok, unset_ok))
     ctx.sample(meta[0])
+
+
+def judge_api(ctx, group, rec, flags):
+    ag, acc, keys_ok, tmo_ok, nj_ok, unset_ok = flags
+    if not unset_ok:
+        ctx.violate(group, rec, 'a limit this facade was not given does not hold its documented default (or a given one not '
+                                'the given value) in the parameter objects handed to the optimiser: %s' % (
+                                    [(f[0], f[3], f[4]) for f in rec.get('fields', [])][:6],))
+    if not ag:
+        ctx.disagree(group, rec, 'model of the ApiParams distribution differs from the facade')
+    if not acc:
+        ctx.violate(group, rec, 'GOLEM(...) raised %s on documented arguments' % rec['raised'])
+    if not keys_ok:
+        ctx.violate(group, rec, 'a limit given to the facade is not found unchanged in exactly one parameter object')
+    if not tmo_ok:
+        ctx.violate(group, rec, 'the timeout given to the facade does not arrive as the same duration')
+    if not nj_ok:
+        ctx.violate(group, rec, 'the worker count given to the facade does not arrive in the requirements handed to the optimiser')
+
+
+def replay_api_sequence(ctx, sequence):
+    """facades built one after the other in this process; each judged like the cases of unit_api"""
+    from joblib import cpu_count
+    cpu = int(cpu_count())
+    cases, meta, earlier = [], [], []
+    for step in sequence:
+        kwargs = list(step.get('kwargs', {}).items()) + common_kwargs()
+        rec = observe_api(step.get('timeout', 2), step.get('n_jobs', 1), kwargs)
+        cases.append(api_case(cpu, step.get('timeout', 2), step.get('n_jobs', 1), kwargs, rec))
+        earlier.append(step)
+        meta.append(dict(rec, req_timeout=str(rec.get('req_timeout')), cpu_count=cpu, sequence=list(earlier),
+                         fields=[f for f in rec.get('fields', []) if f[3] != ('FGiven' if f[2] else 'FDefault')]))
+    res = ctx.coq_cases('api-sequence', REQ, 'acheck', cases, 6)
+    for rec, flags in zip(meta, res):
+        ctx.count('api-sequence', key=json.dumps(rec['sequence'], sort_keys=True), nontrivial=len(rec['sequence']) >= 2,
+                  position=len(rec['sequence']))
+        judge_api(ctx, 'api-sequence', rec, flags)
 
 
 # ------------------------------------------------------------------------------------------------
@@ -1068,6 +1152,10 @@ def run(ctx):
 def replay(ctx, payload):
     v = payload.get('violation') or payload.get('first_disagreement') or {}
     case = v.get('case') or {}
+    sequence = payload.get('api_sequence') or (case.get('sequence') if isinstance(case, dict) else None)
+    if sequence:
+        replay_api_sequence(ctx, sequence)
+        return
     cfg = case.get('cfg') if isinstance(case, dict) else None
     if not cfg:
         return
